@@ -6,12 +6,26 @@
 #include "sim.hpp"
 #include <vector>
 #include <cstdint>
+#include <sys/mman.h>
+#include <exception>
+#include <cstdlib>
+#include <cstdio>
+#if defined(__SANITIZE_ADDRESS__)
+#include <sanitizer/common_interface_defs.h>
+#include <sanitizer/asan_interface.h>
+#define GOMP_ASAN 1
+#endif
+#if defined(__x86_64__)
+extern "C" void sim_ctx_switch(void** save_sp, void* new_sp);   // sim/sim.cpp
+#define GOMP_FIBERS 1
+#endif
 #ifdef SIM_GOMP_THREADS
 // TSan build: the team consists of REAL threads (created per region, joined at its end - TSan understands pthread
 // create/join, so the fork/join edges need no annotation). Only used with a single inline rank (sim::Options::inline_single).
 #include <thread>
 #include <mutex>
-namespace { thread_local int tl_tid = 0; thread_local int tl_nthr = 1; std::mutex g_crit, g_loopmx; }
+#include <condition_variable>
+namespace { thread_local int tl_tid = 0; thread_local int tl_nthr = 1; std::mutex g_crit, g_loopmx, g_barmx; std::condition_variable g_barcv; int g_bar_arrived = 0; long g_bar_gen = 0; int g_team_threads = 1; }
 #endif
 
 namespace {
@@ -31,6 +45,112 @@ int team_size(sim::World* w, unsigned num_threads) {
     int T = num_threads ? (int)num_threads : (g_requested_threads > 0 ? g_requested_threads : w->opt().omp_threads);
     return T < 1 ? 1 : T;
 }
+
+#ifdef GOMP_FIBERS
+// ---- logical threads as fibers ------------------------------------------------------------------------------------------
+// Each logical thread of a team runs on its own small stack. A thread runs until it finishes or reaches a barrier inside the
+// region (GOMP_barrier, the implicit barrier at the end of a work-sharing loop); the threads are run in the seeded order, and
+// when every unfinished thread waits at the barrier all of them are released. Without barriers this is exactly "one thread
+// after the other in a seeded order". No MPI traffic happens inside a region, so this mini-scheduler is local to the rank.
+struct Fiber { void* sp = nullptr; char* stack = nullptr; int tid = 0; enum { NEW, RUNNABLE, AT_BARRIER, DONE } st = NEW; void* fake = nullptr; std::exception_ptr exc; };
+struct TeamRun { std::vector<Fiber> f; void (*fn)(void*) = nullptr; void* data = nullptr; void* sched_sp = nullptr; void* sched_fake = nullptr; int cur = -1;
+                 const void* rank_bottom = nullptr; size_t rank_size = 0; sim::World* w = nullptr; };
+TeamRun* g_team = nullptr;
+const size_t FIBER_STACK = 512u << 10;
+std::vector<char*> g_fiber_pool;
+
+char* fiber_stack_alloc() {
+    if (!g_fiber_pool.empty()) { char* p = g_fiber_pool.back(); g_fiber_pool.pop_back();
+#ifdef GOMP_ASAN
+        ASAN_UNPOISON_MEMORY_REGION(p, FIBER_STACK);
+#endif
+        return p; }
+    void* p = mmap(nullptr, FIBER_STACK, PROT_READ | PROT_WRITE, MAP_PRIVATE | MAP_ANONYMOUS | MAP_NORESERVE, -1, 0);
+    if (p == MAP_FAILED) { perror("mmap omp fiber stack"); abort(); }
+    mprotect(p, 4096, PROT_NONE);
+    return (char*)p;
+}
+void fiber_stack_free(char* p) {
+#ifdef GOMP_ASAN
+    ASAN_UNPOISON_MEMORY_REGION(p, FIBER_STACK);
+#endif
+    if (g_fiber_pool.size() < 64) g_fiber_pool.push_back(p); else munmap(p, FIBER_STACK);
+}
+
+void fiber_to_scheduler(Fiber& me, bool finishing) {
+    TeamRun& t = *g_team;
+#ifdef GOMP_ASAN
+    __sanitizer_start_switch_fiber(finishing ? nullptr : &me.fake, t.rank_bottom, t.rank_size);
+#endif
+    sim_ctx_switch(&me.sp, t.sched_sp);
+#ifdef GOMP_ASAN
+    __sanitizer_finish_switch_fiber(me.fake, nullptr, nullptr);
+#endif
+}
+
+void fiber_entry() {
+    TeamRun& t = *g_team;
+    Fiber& me = t.f[t.cur];
+#ifdef GOMP_ASAN
+    __sanitizer_finish_switch_fiber(nullptr, nullptr, nullptr);
+#endif
+    try { t.fn(t.data); } catch (...) { me.exc = std::current_exception(); }
+    me.st = Fiber::DONE;
+    fiber_to_scheduler(me, true);
+    abort();
+}
+
+// called by a logical thread that reaches a barrier inside the region
+void fiber_barrier() {
+    TeamRun* t = g_team;
+    if (!t || t->cur < 0) return;
+    Fiber& me = t->f[t->cur];
+    me.st = Fiber::AT_BARRIER;
+    fiber_to_scheduler(me, false);
+}
+
+void run_team_fibers(sim::World* w, void (*fn)(void*), void* data, int T, const std::vector<int>& order) {
+    TeamRun team; team.fn = fn; team.data = data; team.w = w;
+    w->rank_stack(&team.rank_bottom, &team.rank_size);
+    team.f.resize(T);
+    for (int i = 0; i < T; i++) {
+        Fiber& f = team.f[i]; f.tid = order[i]; f.stack = fiber_stack_alloc();
+        uintptr_t top = ((uintptr_t)f.stack + FIBER_STACK) & ~(uintptr_t)15;
+        void** sp = (void**)top;
+        *--sp = nullptr; *--sp = (void*)&fiber_entry; for (int k = 0; k < 6; k++) *--sp = nullptr;
+        f.sp = (void*)sp;
+    }
+    TeamRun* outer = g_team; g_team = &team;
+    std::exception_ptr first_exc;
+    for (;;) {
+        bool ran = false, all_done = true;
+        for (int i = 0; i < T; i++) {
+            Fiber& f = team.f[i];
+            if (f.st == Fiber::DONE || f.st == Fiber::AT_BARRIER) { if (f.st != Fiber::DONE) all_done = false; continue; }
+            all_done = false; ran = true;
+            team.cur = i; w->omp_tid = f.tid; f.st = Fiber::RUNNABLE;
+#ifdef GOMP_ASAN
+            __sanitizer_start_switch_fiber(&team.sched_fake, f.stack, FIBER_STACK);
+#endif
+            sim_ctx_switch(&team.sched_sp, f.sp);
+#ifdef GOMP_ASAN
+            __sanitizer_finish_switch_fiber(team.sched_fake, nullptr, nullptr);
+#endif
+            team.cur = -1;
+            if (f.st == Fiber::DONE && f.exc && !first_exc) first_exc = f.exc;
+        }
+        if (first_exc) break;   // a thread threw (e.g. the world is being torn down): abandon the others
+        if (all_done) break;
+        if (!ran) {   // every unfinished thread waits at the barrier: release them (a finished thread never arrives - as in OpenMP, that would be a bug of the program)
+            for (auto& f : team.f) if (f.st == Fiber::AT_BARRIER) f.st = Fiber::RUNNABLE;
+            g_loop.active = false;   // a work-sharing loop ends at its barrier
+        }
+    }
+    g_team = outer;
+    for (auto& f : team.f) fiber_stack_free(f.stack);
+    if (first_exc) std::rethrow_exception(first_exc);
+}
+#endif
 
 // runs fn once per logical thread in a seeded order
 void loop_init(long start, long end, long incr, long chunk) {
@@ -57,6 +177,9 @@ void run_team(sim::World* w, void (*fn)(void*), void* data, int T, bool combined
     struct Restore { sim::World* w; int t, n; ~Restore() { w->omp_tid = t; w->omp_nthr = n; } } restore{w, w->omp_tid, w->omp_nthr};
     w->omp_nthr = T;
     g_loop.last_tid = order[T - 1];
+#ifdef GOMP_FIBERS
+    if (T > 1) { run_team_fibers(w, fn, data, T, order); g_loop.active = false; return; }
+#endif
     for (int i = 0; i < T; i++) {
         w->omp_tid = order[i];
         fn(data);
@@ -73,6 +196,10 @@ void parallel_loop(void (*fn)(void*), void* data, unsigned num_threads, long sta
 // work-sharing loop inside an already running region (#pragma omp for schedule(dynamic) within #pragma omp parallel):
 // the first logical thread to arrive initialises the loop, the others join it
 bool loop_start(long start, long end, long incr, long chunk, long* istart, long* iend) {
+#ifdef SIM_GOMP_THREADS
+    { std::lock_guard<std::mutex> lk(g_loopmx); if (!g_loop.active) loop_init(start, end, incr, chunk); }   // first thread to arrive initialises the loop
+    return loop_next(istart, iend);
+#endif
     if (!g_loop.active || g_loop.region != g_region) {
         sim::World* w = W();
         if (!w || w->omp_nthr <= 1) { g_region++; g_loop.last_tid = w ? w->omp_tid : 0; }
@@ -90,6 +217,7 @@ void run_team_threads(sim::World* w, void (*fn)(void*), void* data, int T, bool 
     g_loop.active = false;
     if (combined_loop) loop_init(ls, le, li, lc);
     g_loop.last_tid = -1;
+    g_team_threads = T; g_bar_arrived = 0;
     std::vector<std::thread> th;
     for (int i = 1; i < T; i++) th.emplace_back([=]() { tl_tid = i; tl_nthr = T; fn(data); tl_tid = 0; tl_nthr = 1; });
     tl_tid = 0; tl_nthr = T;
@@ -157,13 +285,26 @@ void omp_set_lock(sim_omp_lock_t*) {}
 void omp_unset_lock(sim_omp_lock_t*) {}
 int omp_test_lock(sim_omp_lock_t*) { return 1; }
 
-void GOMP_barrier(void) {
+static void team_barrier() {
+#ifdef SIM_GOMP_THREADS
+    if (tl_nthr <= 1) return;
+    std::unique_lock<std::mutex> lk(g_barmx);
+    long gen = g_bar_gen;
+    if (++g_bar_arrived == g_team_threads) { g_bar_arrived = 0; g_bar_gen++; { std::lock_guard<std::mutex> l2(g_loopmx); g_loop.active = false; } g_barcv.notify_all(); }
+    else g_barcv.wait(lk, [gen] { return g_bar_gen != gen; });
+    return;
+#else
     // Orphaned barrier (outside a team) binds to the implicit team of one thread: no-op, as in libgomp.
-    // Inside a simulated team the logical threads are serialised, so a barrier inside a region cannot be honoured.
     sim::World* w = W();
-    if (w && w->omp_nthr > 1)
-        w->fail("sim-unsupported", "GOMP_barrier inside a simulated parallel region (logical threads are serialised)");
+    if (!w || w->omp_nthr <= 1) return;
+#ifdef GOMP_FIBERS
+    fiber_barrier();
+#else
+    w->fail("sim-unsupported", "barrier inside a simulated parallel region (no fiber support on this architecture)");
+#endif
+#endif
 }
+void GOMP_barrier(void) { team_barrier(); }
 
 void GOMP_parallel(void (*fn)(void*), void* data, unsigned num_threads, unsigned /*flags*/) {
     sim::World* w = W();
@@ -218,7 +359,7 @@ bool GOMP_loop_nonmonotonic_dynamic_start(long s, long e, long i, long c, long* 
 bool GOMP_loop_nonmonotonic_guided_start(long s, long e, long i, long c, long* is, long* ie) { return loop_start(s, e, i, c, is, ie); }
 bool GOMP_loop_nonmonotonic_runtime_start(long s, long e, long i, long* is, long* ie) { return loop_start(s, e, i, 1, is, ie); }
 bool GOMP_loop_maybe_nonmonotonic_runtime_start(long s, long e, long i, long* is, long* ie) { return loop_start(s, e, i, 1, is, ie); }
-void GOMP_loop_end(void) {}
+void GOMP_loop_end(void) { team_barrier(); }   // the implicit barrier at the end of a work-sharing loop without nowait
 void GOMP_loop_end_nowait(void) {}
 
 } // extern "C"
